@@ -54,15 +54,15 @@ func StrSeed(s string) uint64 {
 
 // Scheduling policies (chosen per run).
 const (
-	PolUniform   = "uniform"   // uniformly random runnable task
-	PolPCT       = "pct"       // random priorities with a few priority-change points
-	PolRunBlock  = "rununtil"  // keep running the same task until it blocks (unit-test-like)
-	PolLibFirst  = "libfirst"  // library tasks before environment tasks (library infinitely fast)
-	PolEnvFirst  = "envfirst"  // environment before library (library starved)
-	PolStarve    = "starve"    // uniform, but one task is not scheduled for a window
-	PolRR        = "roundrobin"
-	PolLowest    = "lowest"    // always the lowest runnable id (tape of zeros)
-	PolHighest   = "highest"
+	PolUniform  = "uniform"  // uniformly random runnable task
+	PolPCT      = "pct"      // random priorities with a few priority-change points
+	PolRunBlock = "rununtil" // keep running the same task until it blocks (unit-test-like)
+	PolLibFirst = "libfirst" // library tasks before environment tasks (library infinitely fast)
+	PolEnvFirst = "envfirst" // environment before library (library starved)
+	PolStarve   = "starve"   // uniform, but one task is not scheduled for a window
+	PolRR       = "roundrobin"
+	PolLowest   = "lowest" // always the lowest runnable id (tape of zeros)
+	PolHighest  = "highest"
 )
 
 var AllPolicies = []string{PolUniform, PolPCT, PolRunBlock, PolLibFirst, PolEnvFirst, PolStarve, PolRR, PolLowest, PolHighest}
